@@ -150,7 +150,7 @@ CLAIMED = {
                 "faces of area lx*ly (lx*ly/2); hex cells and b3 gluing; descriptor parsing errors exactly on missing/non-positive "
                 "parameters and agreement of the three descriptor forms; zero count (after the fix: commit 9dd602d). Tie: exhaustive size "
                 "boxes on the real builders vs the model (full snapshots) + independent Python oracle.",
-        "note": "Trusted: Lean kernel + 3 standard axioms; translator gen_lean.py (parses the grid arithmetic, fails loudly); hand-written "
+        "note": "The descriptor logic of builder/grid.rs -- the match over (n_cells, len_per_cell, lens) with its patterns, the formula of every arm as an expression tree (division and .ceil() kept as nodes), the check_parameters! checks in source order with field, component and message, the macro condition is_sign_negative | is_zero -- is RE-TRANSLATED on every run too (Gen/GridDesc.lean) and proved equal to parse2 / parse3 of the model for all 8 combinations of given fields (Props/C12Gen.lean: C12_gen_parse2, C12_gen_parse3, gdBad_eq, C12_gen_arms, C12_gen_checks; corollaries C12_gen_parse*_forms_agree, C12_gen_parse2_refusals). Trusted: Lean kernel + 3 standard axioms; translator gen_lean.py (parses the grid arithmetic, fails loudly); hand-written "
                 "builder loops. C12b: 3-D lattice vertices, volumes, counts, build() total; C12c: the third descriptor form in binary64 — "
                 "count = ceil(rnd 53 (L/l)) is ceil(L/l) or one less, exact on exact multiples (C12_ceil_count_f64_multiple), one short on a "
                 "concrete pair of floats (reproduced on the real builder; outside the property: not an exact multiple). NOT proved: that "
@@ -230,7 +230,7 @@ CLAIMED = {
                 "accepted (after repair of D7, commit 00af791). Tie: convex/star/reflex-at-every-index/random simple polygons (4-10 sides, "
                 "both orientations, isolated and embedded) on the real kernels vs the model + exact Python oracle (triangle count, "
                 "orientation, area sum, adjacency, untouched faces, WF). Props/C13c.lean: exact triangle structure after ear clipping (n-2 listed triangles, each a closed b1 3-cycle) under the decidable hypothesis that the ear is never found at the last index (necessary: the kernel's vector surgery drops the wrong dart there; holds on simple polygons by the two-ears theorem, not proved); C13_fan_test_iff: exactly what the star test accepts (nothing about the magnitude of the first examined side, with a decide witness of an accepted zero-area triangle).",
-        "note": "check_requirements (triangulation/mod.rs: both matches with their patterns and range kinds, the constants, the error variants and messages) and BOTH fan kernels process_cell / process_convex_cell of triangulation/fan.rs (the star search: range start, the two vertex indices of a side, the argument order of the cross product, the != sign comparison, the strict comparison with epsilon; the chunks_exact(2) loop body, the start and update of d0, the tail) are RE-TRANSLATED from the source on every run (Gen/Fan.lean) and proved equal as programs to checkRequirements / fanCell / fanConvexCell of the model (Props/C13Gen.lean: C13_gen_check_requirements, C13_gen_fanTest, C13_gen_fan_loop_step + C13_gen_fan_loop by induction, C13_gen_fanConvex, C13_gen_fan; corollaries C13_gen_check_requirements_ok_iff, C13_gen_fan_kernel_star); the ear-clipping kernel stays hand-written. Trusted: Lean kernel + 3 standard axioms; otherwise hand-written kernel models. C13b: WF through fan/fan_convex/earclip, exact structure "
+        "note": "check_requirements (triangulation/mod.rs: both matches with their patterns and range kinds, the constants, the error variants and messages) and BOTH fan kernels process_cell / process_convex_cell of triangulation/fan.rs (the star search: range start, the two vertex indices of a side, the argument order of the cross product, the != sign comparison, the strict comparison with epsilon; the chunks_exact(2) loop body, the start and update of d0, the tail) are RE-TRANSLATED from the source on every run (Gen/Fan.lean) and proved equal as programs to checkRequirements / fanCell / fanConvexCell of the model (Props/C13Gen.lean: C13_gen_check_requirements, C13_gen_fanTest, C13_gen_fan_loop_step + C13_gen_fan_loop by induction, C13_gen_fanConvex, C13_gen_fan; corollaries C13_gen_check_requirements_ok_iff, C13_gen_fan_kernel_star); the ear-clipping kernel of triangulation/ear_clipping.rs likewise (Gen/EarClip.lean, Props/C13GenB.lean: the two orientation closures C13_gen_earInside_ccw / _cw, C13_gen_earTest, one clipping step C13_gen_earclip_step with the dart-list bookkeeping interpreted literally, C13_gen_earclip_loop, C13_gen_earclip(_ccw/_cw) -- the whole-function tie is an equality of RUNS, since the code keeps n in a variable of its own where the model uses the list length; corollary C13_gen_earclip_kernel_triangles). Trusted: Lean kernel + 3 standard axioms; otherwise hand-written kernel models. C13b: WF through fan/fan_convex/earclip, exact structure "
                 "after a fan; C13c: exact triangle structure after ear clipping under EarsNotLast (decidable; holds on simple polygons by "
                 "the two-ears theorem), C13_fan_test_iff; C13d: for both fan kernels the triangles of the RESULT map carry the coordinates of "
                 "the vertex-list triangles, hence area conservation, orientation and untouched coordinates in the map (fresh spare darts). "
@@ -286,7 +286,7 @@ CLAIMED = {
                 "1x1..3x3 split grids x swap/cut/collapse, plain/anchored/multi-surface/pre-refined meshes, adaptive histories, tx blocks "
                 "on the real kernels vs the model; independent oracle on exact Fractions (triangles, counts, areas, coordinates, flags, "
                 "anchors, orientation). Props/C15b.lean: b-level topology theorems on arbitrary WF maps for swap (twelve images, frame, triangles), outer and inner cut (spare darts placed as documented, pairings, frame), cells and face iterator after cut_outer_edge, midpoint at the vertex id in the FINAL map, and collapse_edge itself (interior edge, no anchors): WF unconditionally, exactly the six triangle darts flagged and free, neighbours re-glued, frame.",
-        "note": "swap_edge (remeshing/swap.rs: guards with their error variants, reads, the short-circuit topology test, six unsews and six sews with their argument order), cut_outer_edge and cut_inner_edge (remeshing/cut.rs: 30 and 51 instructions, the anchor reads / writes with the attribute kind inferred from the value type, the midpoint with its retry) and the dispatch of CMap2::sew / unsew ::<I> (dim2/sews/mod.rs) are RE-TRANSLATED from the source on every run (Gen/Remesh.lean) and proved equal as programs to swapEdge / cutOuterEdge / cutInnerEdge of the model (Props/C15Gen.lean: C15_gen_swapEdge, C15_gen_cutOuterEdge, C15_gen_cutInnerEdge, C15_gen_sew_dispatch; corollaries C15_gen_*_preserves_WF, C15_gen_swap_guards); of collapse.rs the guard is_collapsible (early return, reads, the three anchor reads, merge arguments, dimension comparisons, arm table, both messages) and the helpers collapse_halfcell_to_midpoint, collapse_halfcell_to_base, collapse_edge_to_midpoint are translated and tied too (Gen/Collapse.lean, Props/C15GenB.lean: C15_gen_collapse_isCollapsible, C15_gen_collapse_choice, C15_gen_collapse_halfMid, C15_gen_collapse_halfBase, C15_gen_collapse_edgeToMidpoint); collapse_edge_to_base is translated but not yet tied, the top level of collapse_edge and the orientation post-check (utils/routines.rs) stay hand-written. Props/C15d.lean: anchors after cut_outer_edge / cut_inner_edge as theorems for every subset of the anchor storages (every slot of every storage), the inner cut never succeeds on a map with a VertexAnchor storage (theorem), collapse: no FaceAnchor slot is ever written (root of D15a), end-point target, midpoint vertex count under a hypothesis excluding D15f. Partial: the property is FALSE on the current tree in the recorded ways (known findings D9, D15a, D15d, D15e, D15f, each with a "
+        "note": "swap_edge (remeshing/swap.rs: guards with their error variants, reads, the short-circuit topology test, six unsews and six sews with their argument order), cut_outer_edge and cut_inner_edge (remeshing/cut.rs: 30 and 51 instructions, the anchor reads / writes with the attribute kind inferred from the value type, the midpoint with its retry) and the dispatch of CMap2::sew / unsew ::<I> (dim2/sews/mod.rs) are RE-TRANSLATED from the source on every run (Gen/Remesh.lean) and proved equal as programs to swapEdge / cutOuterEdge / cutInnerEdge of the model (Props/C15Gen.lean: C15_gen_swapEdge, C15_gen_cutOuterEdge, C15_gen_cutInnerEdge, C15_gen_sew_dispatch; corollaries C15_gen_*_preserves_WF, C15_gen_swap_guards); of collapse.rs the guard is_collapsible (early return, reads, the three anchor reads, merge arguments, dimension comparisons, arm table, both messages) and the helpers collapse_halfcell_to_midpoint, collapse_halfcell_to_base, collapse_edge_to_midpoint are translated and tied too (Gen/Collapse.lean, Props/C15GenB.lean: C15_gen_collapse_isCollapsible, C15_gen_collapse_choice, C15_gen_collapse_halfMid, C15_gen_collapse_halfBase, C15_gen_collapse_edgeToMidpoint); collapse_edge_to_base, the top level of collapse_edge (null check, both BadTopology guards, the match on the choice with its argument triples, the InvertedOrientation abort) and the orientation post-check is_orbit_orientation_consistent of utils/routines.rs (which darts and vertices, the argument order of the cross product, rejection of a ZERO cross product in the reference triangle and in the loop) are tied as well (Props/C15GenB.lean, C15GenC.lean: C15_gen_collapse_edgeToBase, C15_gen_collapse_edge, C15_gen_collapse_orient, C15_gen_collapse_edge_full = collapse_edge with every callee translated; corollary C15_gen_collapse_no_flat_triangle). Props/C15d.lean: anchors after cut_outer_edge / cut_inner_edge as theorems for every subset of the anchor storages (every slot of every storage), the inner cut never succeeds on a map with a VertexAnchor storage (theorem), collapse: no FaceAnchor slot is ever written (root of D15a), end-point target, midpoint vertex count under a hypothesis excluding D15f. Partial: the property is FALSE on the current tree in the recorded ways (known findings D9, D15a, D15d, D15e, D15f, each with a "
                 "structural matcher; D9, D15a,d,e also with decide witnesses in Lean, D15f by replay only; D15b, D15c, D15g repaired). "
                 "C15b: b-level topology of swap/cuts on arbitrary WF maps; C15c: V/E/F counts through the iterators for swap, cuts and the "
                 "interior midpoint collapse, inner-cut cells and final-map midpoint, C15_swap_cells and C15_swap_moves_corners (D9 "
